@@ -96,8 +96,12 @@ def many_trees_desc(rng, max_nodes=8, max_segs=8, p_gap=0.15, p_root=0.25, scale
     cand = list(range(2 * L))
     pos2 = sorted(rng.sample(cand, min(ns, len(cand))))
     sites = [[p2 / 2 if p2 % 2 else p2 // 2, "A", ""] for p2 in pos2]
-    return {"L": L, "scale": scale, "nodes": nodes, "edges": edges, "sites": sites,
-            "mutations": [], "individuals": [], "populations": [], "migrations": []}
+    d = {"L": L, "scale": scale, "nodes": nodes, "edges": edges, "sites": sites,
+         "mutations": [], "individuals": [], "populations": [], "migrations": []}
+    # tskit puts no constraint on node ids: renumber (reversed or random) most of the time;
+    # options / ops are generated from the returned description, so nothing needs remapping
+    d, _pi = gen_ts.permute_node_ids(rng, d, p=0.6)
+    return d
 
 
 def ulp_desc(rng, max_nodes=6, max_segs=8):
@@ -145,7 +149,7 @@ def strip_desc(desc):
     return d
 
 
-def special_descs():
+def special_descs(extra=False):
     """Hand-written shapes named in the task: 1 tree, gaps at both ends, many equal
     end-points, zero edges, a single edge in the middle."""
     def mk(L, nodes, edges, sites=(), scale=1):
@@ -175,6 +179,13 @@ def special_descs():
                   [0, 2, 4.5], scale=1 / 3))
     # no samples at all
     out.append(mk(2, [(0, 0), (0, 1)], [(0, 1, 1, 0)]))
+    if extra:   # not in the exhaustive families (cost)
+        # unary chain 0-2-3-1 with an internal sample, node ids NOT in time order, shortened on the right
+        out.append(mk(2, [(1, 0), (0, 3), (1, 1), (0, 2)], [(0, 2, 2, 0), (0, 2, 3, 2), (0, 1, 1, 3)], [0.5]))
+        # a long trailing edge-less region (more than half of L) after two trees
+        out.append(mk(9, [(1, 0), (1, 0), (0, 1), (0, 2)], [(0, 2, 2, 0), (0, 1, 2, 1), (1, 2, 3, 1), (0, 2, 3, 2)], [0, 5]))
+        # ... and a long leading one
+        out.append(mk(9, [(1, 0), (1, 0), (0, 1), (0, 2)], [(7, 9, 2, 0), (7, 8, 2, 1), (8, 9, 3, 1), (7, 9, 3, 2)], [3, 8]))
     return out
 
 
@@ -277,6 +288,25 @@ def chain(first, nxt, u, limit):
     return out
 
 
+ARRAY_NAMES = ["parent_array", "left_child_array", "right_child_array", "left_sib_array", "right_sib_array",
+               "num_children_array", "edge_array"]
+
+
+def arrays_live(tree):
+    """The numpy arrays a Tree hands out (cached at creation / copy) are read-only live views:
+    after any move they must equal what the low-level tree reports now, and stay read-only."""
+    import numpy as np
+    bad = []
+    for name in ARRAY_NAMES:
+        held = getattr(tree, name)
+        now = getattr(tree._ll_tree, name)
+        if held.flags.writeable or now.flags.writeable:
+            bad.append(name + ":writeable")
+        if held.shape != now.shape or not np.array_equal(held, now):
+            bad.append(name + ":stale")
+    return bad
+
+
 def tree_state(tree, cmap):
     """Canonical observable state (children as sorted lists, samples as sorted lists).
     cmap maps the floats that can legitimately appear as interval end-points to lattice*2."""
@@ -307,6 +337,7 @@ def tree_state(tree, cmap):
         "root_threshold": int(tree.root_threshold),
         "span": cmap.get(float(iv.right), 0) - cmap.get(float(iv.left), 0)
         if float(iv.right) in cmap and float(iv.left) in cmap else None,
+        "arrays_live": arrays_live(tree),
     }
     if tree._ll_tree.get_options() & 2:   # _tskit.SAMPLE_LISTS: raw linked list too
         ll = tree._ll_tree
@@ -404,8 +435,10 @@ def run_ops(desc, ts, opts, ops, interner, cmap):
     for op in ops:
         cur, other, ret, exc, x = apply_op(desc, cur, other, op)
         iv = cur.interval
+        import numpy as np
+        alias = bool(cur is not other and any(np.shares_memory(getattr(cur, n), getattr(other, n)) for n in ARRAY_NAMES))
         steps.append([ret, exc, interner.add(tree_state(cur, cmap)),
-                      interner.add(tree_state(other, cmap)), [float(iv.left), float(iv.right)]])
+                      interner.add(tree_state(other, cmap)), [float(iv.left), float(iv.right), alias]])
     return steps
 
 
@@ -571,6 +604,8 @@ def check_state_internal(st, N):
         out.append("sample_lists-vs-samples")
     if st["num_roots"] != len(st["roots"]) or st["num_sites"] != len(st["sites"]):
         out.append("num_roots/num_sites")
+    if st.get("arrays_live"):
+        out.append("arrays-not-live:" + ",".join(st["arrays_live"]))
     return out
 
 
@@ -651,6 +686,8 @@ def oracle_steps(desc, opts, tab, states, fresh, ops, steps, tag=""):
         if k in ("next", "prev") and exc is None:
             if ret not in (0, 1) or (ret == 0) != (st["index"] == -1):
                 fails.append(("return-value:%s" % k, "%s returned %r, index now %d" % (where, ret, st["index"])))
+        if len(ivf) > 2 and ivf[2]:
+            fails.append(("copy-shares-arrays", "%s: arrays of the two trees share memory" % where))
         if k in ("seek", "ll_seek") and exc is None:
             x = pos_float(desc, op[1])
             if not (ivf[0] <= x < ivf[1]):
@@ -755,13 +792,59 @@ def random_ts_desc1(rng):
     elif r < 0.8:
         d = strip_desc(gen_ts.random_desc(rng, max_nodes=rng.choice([4, 8, 12]), max_L=rng.choice([4, 8, 10]),
                                           metadata=False, individuals=False, populations=False, max_muts=0))
+        d, _pi = gen_ts.permute_node_ids(rng, d, p=0.6)
     elif r < 0.9:
         d = many_trees_desc(rng, max_nodes=10, max_segs=2, squash=0.3)      # many equal end-points
     else:
-        d = rng.choice(special_descs())
-    if rng.random() < 0.25:
+        d = rng.choice(special_descs(extra=True))
+    r = rng.random()
+    if r < 0.2:
         d = pad_desc(d, rng.randrange(0, 3), rng.randrange(0, 3))            # gaps at the ends
+    elif r < 0.4:
+        d = long_gap_desc(rng, d)
     return d
+
+
+def long_gap_desc(rng, d):
+    """Leading and / or trailing edge-less region longer than the whole edge span (so it covers
+    more than half of the genome: a seek into it from the null state uses the scan direction
+    that has to run over EVERY edge)."""
+    big = d["L"] + rng.randrange(1, 4)
+    which = rng.choice(["lead", "trail", "trail", "both"])
+    return pad_desc(d, big if which in ("lead", "both") else rng.randrange(0, 2),
+                    big if which in ("trail", "both") else rng.randrange(0, 2))
+
+
+def continue_ops(rng, desc, T, n_targets=4, ll=True):
+    """Histories that CONTINUE after every way of arriving somewhere: seek / seek_index from the
+    null state or from a tree, clear, running off either end — followed by a run of prev() or
+    next() steps (the cursor bookmark left by an arrival is only observable one step later)."""
+    L = desc["L"]
+    bps = gen_ts.breakpoints(desc)
+    ops = []
+    for _ in range(n_targets):
+        if rng.random() < 0.6:
+            ops.append(["clear"])
+        r = rng.random()
+        k = rng.choice([0, T - 1, rng.randrange(0, T)])
+        if r < 0.4:
+            ops.append(["seek", ["h", bps[k] + bps[k + 1]]])
+        elif r < 0.55:
+            ops.append(["seek", ["h", 2 * bps[k]]])
+        elif r < 0.8:
+            ops.append(["seek_index", rng.choice([k, k - T])])
+        elif r < 0.9 and ll:
+            ops.append(["ll_seek_index", k])
+        else:
+            ops.append(rng.choice([["first"], ["last"], ["next"], ["prev"]]))
+        step = rng.choice(["prev", "next"])
+        for _ in range(rng.choice([1, 2, T, T + 2])):
+            ops.append([step])
+        if rng.random() < 0.5:                      # and back again
+            back = "next" if step == "prev" else "prev"
+            for _ in range(rng.choice([1, 2, T + 1])):
+                ops.append([back])
+    return ops[:60]
 
 
 def num_trees_of(desc):
@@ -946,7 +1029,7 @@ class NavIter(Family):
     shard = 100
 
     def generate(self, rng, tier):
-        for d in special_descs():
+        for d in special_descs(extra=True):
             yield {"desc": d, "opts": {"sample_lists": True, "tracked": None, "root_threshold": 1}}
         for _ in range(150 if tier == "quick" else 2000):
             d = random_ts_desc(rng)
@@ -981,6 +1064,18 @@ class NavIter(Family):
             again = 1
         except StopIteration:
             pass
+        # stale state: the exhausted iterator's tree, and a copy of it, are re-used
+        reuse = []
+        tx = itr.tree
+        for op in (["next"], ["prev"], ["prev"], ["seek_index", -1], ["next"], ["clear"], ["last"]):
+            tx, _o, ret_, exc_, _x = apply_op(desc, tx, tx, op)
+            reuse.append([op, exc_, it.add(tree_state(tx, cmap))])
+        tcopy = ts.trees(**kw)
+        for _t in tcopy:
+            pass
+        tc2 = tcopy.tree.copy()
+        tc2, _o, _r, exc_, _x = apply_op(desc, tc2, tc2, ["prev"])
+        reuse.append([["copy-of-exhausted", "prev"], exc_, it.add(tree_state(tc2, cmap))])
         # mixed use: iterate two steps, then navigate the iterator's tree by hand
         itr2 = ts.trees(**kw)
         mixed = []
@@ -1031,7 +1126,7 @@ class NavIter(Family):
             calls[name] = seq
         return {"tab": table_obs(ts, cmap), "fresh": fresh, "fwd": fwd, "rev": rev, "end": end,
                 "again": again, "mixed": mixed, "states": it.states, "calls": calls,
-                "aslist": aslist, "aslist_moved": moved, "copy_ops": copy_ops,
+                "aslist": aslist, "aslist_moved": moved, "copy_ops": copy_ops, "reuse": reuse,
                 "flags": [int(f) for f in ts.tables.nodes.flags], "nsites": int(ts.num_sites)}
 
     def coq_check(self, case, obs):
@@ -1086,6 +1181,15 @@ class NavIter(Family):
                 fails.append(("copy-moved-original", "aslist()[%d] changed when its copy did %r" % (i, op)))
             if len(fails) > 6:
                 break
+        if obs.get("reuse"):
+            Tn = len(fr)
+            # null -next-> 0 -prev-> null -prev-> T-1 -seek_index(-1)-> T-1 -next-> null -clear-> null -last-> T-1
+            expi = [0, -1, Tn - 1, Tn - 1, -1, -1, Tn - 1, Tn - 1]
+            for (op, exc_, si), e in zip(obs["reuse"], expi):
+                exp_state = nullst if e == -1 else fr[e]
+                if exc_ is not None or si != exp_state:
+                    fails.append(("reuse-after-exhaustion", "%r on the exhausted iterator's tree: exc=%r index %r expected %r"
+                                  % (op, exc_, st[si].get("index"), e)))
         # call by call: yields T trees then StopIteration for ever, tree null afterwards
         T = len(fr)
         for name, order in (("fwd", fr), ("rev", fr[::-1])):
@@ -1276,7 +1380,7 @@ class Model(Family):
     coq_timeout = 1200
 
     def generate(self, rng, tier):
-        for d in special_descs():
+        for d in special_descs(extra=True):
             T = num_trees_of(d)
             for _ in range(3 if tier == "quick" else 20):
                 yield {"desc": d, "opts": random_opts(rng, d), "ops": model_ops(rng, d, T, 25)}
@@ -1290,16 +1394,23 @@ class Model(Family):
             else:
                 d = strip_desc(gen_ts.random_desc(rng, max_nodes=8, max_L=6, metadata=False, individuals=False,
                                                   populations=False, max_muts=0, scale=rng.choice([1, 0.5, 2.5])))
-            if rng.random() < 0.2:
+                d, _pi = gen_ts.permute_node_ids(rng, d, p=0.6)
+            r = rng.random()
+            if r < 0.2:
                 d = pad_desc(d, rng.randrange(0, 2), rng.randrange(0, 2))
+            elif r < 0.45:
+                d = long_gap_desc(rng, d)           # edge-less region over more than half of L
             if len(d["edges"]) > 10 or len(d["nodes"]) > 8:
                 continue
             T = num_trees_of(d)
             if T == 1 and rng.random() < 0.7:
                 continue
             k += 1
-            yield {"desc": d, "opts": random_opts(rng, d),
-                   "ops": model_ops(rng, d, T, rng.choice([4, 10, 20, 30]))}
+            if rng.random() < 0.35:                 # arrive somewhere, then keep walking
+                ops = continue_ops(rng, d, T, n_targets=rng.choice([2, 4]))
+            else:
+                ops = model_ops(rng, d, T, rng.choice([4, 10, 20, 30]))
+            yield {"desc": d, "opts": random_opts(rng, d), "ops": ops}
 
     def observe(self, case):
         import tskit
@@ -1449,9 +1560,17 @@ class NavBlind(NavRandom):
     name = "nav_blind"
 
     def generate(self, rng, tier):
-        n = 80 if tier == "quick" else 1600
+        n = 100 if tier == "quick" else 2000
         for k in range(n):
-            kind = k % 4
+            kind = k % 5
+            if kind == 4:       # long edge-less ends; histories that continue after every arrival
+                T = 0
+                while T < 2:
+                    d = long_gap_desc(rng, many_trees_desc(rng, max_nodes=rng.choice([4, 7]), min_segs=1, max_segs=5,
+                                                           p_gap=0.2, scale=rng.choice([1, 1 / 3, 2.5])))
+                    T = num_trees_of(d)
+                yield {"desc": d, "opts": random_opts(rng, d), "ops": continue_ops(rng, d, T, n_targets=6)}
+                continue
             if kind == 3:       # one-ulp-wide trees: seek_index / at_index / negative indexes / copies
                 T = 0
                 while T < 3:
